@@ -4,6 +4,7 @@
    as Section hypotheses with exactly the statements proved there. *)
 From Coq Require Import List NArith Bool Arith Lia.
 From MW Require Import C05.Heap C05.TreeOps C06.Model C07.Proofs.
+From MW Require C05.ProofsApi.
 Import ListNotations.
 
 (* ================================================================ 1. build is complete *)
@@ -141,3 +142,803 @@ Qed.
 
 Lemma sdepth0_le : forall t, sdepth 0 t <= tsize t * tsize t.
 Proof. intros t. pose proof (sdepth_bound t 0). simpl in H. lia. Qed.
+
+(* ================================================================ 3. the adjacent move, structurally
+   adjm n tgt P t t' : somewhere in t there are consecutive siblings S, P (tid P = n) and the last
+   child of S is L (tid L = tgt); t' is t with P moved behind L (new last child of S). *)
+Inductive adjm (n tgt : N) (P : tree) : tree -> tree -> Prop :=
+| adjm_here : forall i pre sid ks L post, tid P = n -> tid L = tgt ->
+    adjm n tgt P (T i (pre ++ T sid (ks ++ [L]) :: P :: post))
+                 (T i (pre ++ T sid (ks ++ [L; P]) :: post))
+| adjm_in : forall i pre x x' post, adjm n tgt P x x' ->
+    adjm n tgt P (T i (pre ++ x :: post)) (T i (pre ++ x' :: post)).
+
+Lemma adjm_tid : forall n tgt P t t', adjm n tgt P t t' -> tid t' = tid t.
+Proof. intros n tgt P t t' H. destruct H; reflexivity. Qed.
+
+Lemma adjm_tsize : forall n tgt P t t', adjm n tgt P t t' -> tsize t' = tsize t.
+Proof.
+  intros n tgt P t t' H. induction H.
+  - autorewrite with sz. lia.
+  - autorewrite with sz. lia.
+Qed.
+
+Lemma adjm_sdepth : forall n tgt P t t', adjm n tgt P t t' ->
+  forall d, sdepth d t' = sdepth d t + tsize P.
+Proof.
+  intros n tgt P t t' H. induction H; intros d.
+  - autorewrite with sz. rewrite (sdepth_S P (S d)). lia.
+  - autorewrite with sz. rewrite IHadjm. lia.
+Qed.
+
+Lemma adjm_ids : forall n tgt P t t', adjm n tgt P t t' -> ids t' = ids t.
+Proof.
+  intros n tgt P t t' H. induction H.
+  - rewrite !ids_eq, !idsl_app, !idsl_cons, !ids_eq, !idsl_app, !idsl_cons.
+    change (idsl []) with (@nil N). rewrite !app_nil_r.
+    simpl. rewrite <- !app_assoc. reflexivity.
+  - rewrite !ids_eq, !idsl_app, !idsl_cons, IHadjm. reflexivity.
+Qed.
+
+Lemma NoDup_app_iff {A} : forall (a b : list A),
+  NoDup (a ++ b) <-> NoDup a /\ NoDup b /\ (forall x, In x a -> ~ In x b).
+Proof.
+  intros a b. split.
+  - intros H. split; [eapply NoDup_app_l; eassumption|].
+    split; [eapply NoDup_app_r; eassumption|].
+    intros x. apply NoDup_app_disj. exact H.
+  - intros (Ha & Hb & D). induction a as [|x a IH]; [exact Hb|].
+    simpl. inversion Ha; subst. constructor.
+    + intro K. apply in_app_or in K. destruct K as [K|K]; [contradiction|].
+      apply (D x); [left; reflexivity | exact K].
+    + apply IH; auto. intros y Hy. apply D. right. exact Hy.
+Qed.
+
+Lemma f_find_cons : forall c x r,
+  f_find c (x :: r) = match t_find c x with Some s => Some s | None => f_find c r end.
+Proof. reflexivity. Qed.
+
+Lemma f_find_app_none : forall c a b, ~ In c (idsl a) -> f_find c (a ++ b) = f_find c b.
+Proof.
+  induction a as [|x a IH]; intros b H; [reflexivity|].
+  rewrite idsl_cons in H. simpl.
+  rewrite t_find_none by (intro; apply H; apply in_or_app; left; assumption).
+  apply IH. intro; apply H; apply in_or_app; right; assumption.
+Qed.
+
+(* what the structural move knows about t (NoDup ids) *)
+Lemma adjm_facts : forall n tgt P t t', adjm n tgt P t t' -> NoDup (ids t) ->
+  In n (ids t) /\ In tgt (ids t) /\ n <> tid t /\ tgt <> tid t /\
+  t_find n t = Some P /\ ~ In tgt (ids P).
+Proof.
+  intros n tgt P t t' H. induction H as [i pre sid ks L post HP HL | i pre x x' post H IH];
+    intros Hnd.
+  - rewrite ids_eq in Hnd. inversion Hnd as [|? ? Hi Hnd']; subst.
+    rewrite idsl_app, !idsl_cons, ids_eq, idsl_app, idsl_cons in Hnd'.
+    rewrite idsl_app, !idsl_cons, ids_eq, idsl_app, idsl_cons in Hi.
+    change (idsl []) with (@nil N) in *. rewrite app_nil_r in *.
+    pose proof (tid_in_ids P) as InP. pose proof (tid_in_ids L) as InL.
+    apply NoDup_app_iff in Hnd'. destruct Hnd' as (N1 & N2 & D1).
+    apply NoDup_app_iff in N2. destruct N2 as (N2 & N3 & D2).
+    apply NoDup_app_iff in N3. destruct N3 as (N3 & N4 & D3).
+    assert (InLS : In (tid L) (sid :: idsl ks ++ ids L))
+      by (right; apply in_or_app; right; exact InL).
+    assert (F1 : ~ In (tid P) (idsl pre)).
+    { intro K. apply (D1 _ K). apply in_or_app. right. apply in_or_app. left. exact InP. }
+    assert (F2 : ~ In (tid P) (sid :: idsl ks ++ ids L)).
+    { intro K. apply (D2 _ K). apply in_or_app. left. exact InP. }
+    rewrite ids_eq, idsl_app, !idsl_cons, ids_eq, idsl_app, idsl_cons.
+    change (idsl []) with (@nil N). rewrite app_nil_r. simpl tid.
+    split; [|split; [|split; [|split; [|split]]]].
+    + right. apply in_or_app. right. apply in_or_app. right. apply in_or_app. left. exact InP.
+    + right. apply in_or_app. right. apply in_or_app. left. exact InLS.
+    + intro K. apply Hi. rewrite <- K.
+      apply in_or_app. right. apply in_or_app. right. apply in_or_app. left. exact InP.
+    + intro K. apply Hi. rewrite <- K.
+      apply in_or_app. right. apply in_or_app. left. exact InLS.
+    + rewrite t_find_eq.
+      assert (E : N.eqb i (tid P) = false).
+      { apply N.eqb_neq. intro K. apply Hi. rewrite K.
+        apply in_or_app. right. apply in_or_app. right. apply in_or_app. left. exact InP. }
+      rewrite E, (f_find_app_none _ _ _ F1), f_find_cons.
+      rewrite (t_find_none (tid P) (T sid (ks ++ [L]))).
+      * rewrite f_find_cons, t_find_root. reflexivity.
+      * rewrite ids_eq, idsl_app, idsl_cons. change (idsl []) with (@nil N).
+        rewrite app_nil_r. exact F2.
+    + intro K. apply (D2 _ InLS). apply in_or_app. left. exact K.
+  - rewrite ids_eq in Hnd. inversion Hnd as [|? ? Hi Hnd']; subst.
+    rewrite idsl_app, idsl_cons in Hnd', Hi.
+    apply NoDup_app_iff in Hnd'. destruct Hnd' as (N1 & N2 & D1).
+    apply NoDup_app_iff in N2. destruct N2 as (N2 & N3 & D2).
+    destruct (IH N2) as (I1 & I2 & I3 & I4 & I5 & I6).
+    assert (F1 : ~ In n (idsl pre)).
+    { intro K. apply (D1 _ K). apply in_or_app. left. exact I1. }
+    rewrite ids_eq, idsl_app, idsl_cons. simpl tid.
+    split; [|split; [|split; [|split; [|split]]]].
+    + right. apply in_or_app. right. apply in_or_app. left. exact I1.
+    + right. apply in_or_app. right. apply in_or_app. left. exact I2.
+    + intro K. apply Hi. rewrite <- K. apply in_or_app. right. apply in_or_app. left. exact I1.
+    + intro K. apply Hi. rewrite <- K. apply in_or_app. right. apply in_or_app. left. exact I2.
+    + rewrite t_find_eq.
+      assert (E : N.eqb i n = false).
+      { apply N.eqb_neq. intro K. apply Hi. rewrite K.
+        apply in_or_app. right. apply in_or_app. left. exact I1. }
+      rewrite E, (f_find_app_none _ _ _ F1), f_find_cons, I5. reflexivity.
+    + exact I6.
+Qed.
+
+(* the structural move is what the tree-level operations compute *)
+Lemma adjm_ops : forall n tgt P t t', adjm n tgt P t t' -> NoDup (ids t) ->
+  t_insert tgt false P (t_replace n [] t) = t'.
+Proof.
+  intros n tgt P t t' H. induction H as [i pre sid ks L post HP HL | i pre x x' post H IH];
+    intros Hnd.
+  - rewrite ids_eq in Hnd. inversion Hnd as [|? ? Hi Hnd']; subst.
+    rewrite idsl_app, !idsl_cons, ids_eq, idsl_app, idsl_cons in Hnd'.
+    change (idsl []) with (@nil N) in *. rewrite app_nil_r in *.
+    pose proof (tid_in_ids P) as InP. pose proof (tid_in_ids L) as InL.
+    apply NoDup_app_iff in Hnd'. destruct Hnd' as (N1 & N2 & D1).
+    apply NoDup_app_iff in N2. destruct N2 as (N2 & N3 & D2).
+    apply NoDup_app_iff in N3. destruct N3 as (N3 & N4 & D3).
+    assert (InLS : In (tid L) (sid :: idsl ks ++ ids L))
+      by (right; apply in_or_app; right; exact InL).
+    assert (F1 : ~ In (tid P) (idsl pre)).
+    { intro K. apply (D1 _ K). apply in_or_app. right. apply in_or_app. left. exact InP. }
+    assert (F2 : ~ In (tid P) (ids (T sid (ks ++ [L])))).
+    { rewrite ids_eq, idsl_app, idsl_cons. change (idsl []) with (@nil N). rewrite app_nil_r.
+      intro K. apply (D2 _ K). apply in_or_app. left. exact InP. }
+    assert (F3 : ~ In (tid P) (idsl post)).
+    { intro K. apply (D3 _ InP K). }
+    assert (G1 : ~ In (tid L) (idsl pre)).
+    { intro K. apply (D1 _ K). apply in_or_app. left. exact InLS. }
+    assert (G3 : ~ In (tid L) (idsl post)).
+    { intro K. apply (D2 _ InLS). apply in_or_app. right. exact K. }
+    assert (G4 : sid <> tid L /\ ~ In (tid L) (idsl ks)).
+    { inversion N2 as [|? ? Hs N2']; subst. apply NoDup_app_iff in N2'.
+      destruct N2' as (_ & _ & D4). split.
+      - intro K. apply Hs. rewrite K. apply in_or_app. right. exact InL.
+      - intro K. apply (D4 _ K InL). }
+    destruct G4 as [G4 G5].
+    rewrite t_replace_eq, rep_app, !rep_cons, (rep_notin _ _ _ F1), (rep_notin _ _ _ F3).
+    rewrite (t_replace_notin _ _ _ F2), N.eqb_refl.
+    change (tid (T sid (ks ++ [L]))) with sid.
+    assert (E1 : N.eqb sid (tid P) = false).
+    { apply N.eqb_neq. intro K. apply F2. rewrite <- K. left. reflexivity. }
+    rewrite E1. simpl app.
+    rewrite t_insert_eq, ins_app, ins_cons, (ins_notin _ _ _ _ G1), (ins_notin _ _ _ _ G3).
+    change (tid (T sid (ks ++ [L]))) with sid.
+    assert (E2 : N.eqb sid (tid L) = false) by (apply N.eqb_neq; exact G4).
+    rewrite E2, t_insert_eq, ins_app, ins_cons, (ins_notin _ _ _ _ G5), N.eqb_refl.
+    reflexivity.
+  - destruct (adjm_facts _ _ _ _ _ H) as (I1 & I2 & I3 & I4 & I5 & I6).
+    { rewrite ids_eq, idsl_app, idsl_cons in Hnd. inversion Hnd as [|? ? Hi Hnd']; subst.
+      apply NoDup_app_r in Hnd'. eapply NoDup_app_l; eassumption. }
+    rewrite ids_eq in Hnd. inversion Hnd as [|? ? Hi Hnd']; subst.
+    rewrite idsl_app, idsl_cons in Hnd'.
+    apply NoDup_app_iff in Hnd'. destruct Hnd' as (N1 & N2 & D1).
+    apply NoDup_app_iff in N2. destruct N2 as (N2 & N3 & D2).
+    assert (F1 : ~ In n (idsl pre)).
+    { intro K. apply (D1 _ K). apply in_or_app. left. exact I1. }
+    assert (F3 : ~ In n (idsl post)) by (intro K; apply (D2 _ I1 K)).
+    assert (G1 : ~ In tgt (idsl pre)).
+    { intro K. apply (D1 _ K). apply in_or_app. left. exact I2. }
+    assert (G3 : ~ In tgt (idsl post)) by (intro K; apply (D2 _ I2 K)).
+    rewrite t_replace_eq, rep_app, rep_cons, (rep_notin _ _ _ F1), (rep_notin _ _ _ F3).
+    assert (E1 : N.eqb (tid x) n = false) by (apply N.eqb_neq; auto).
+    rewrite E1. simpl app.
+    rewrite t_insert_eq, ins_app, ins_cons, (ins_notin _ _ _ _ G1), (ins_notin _ _ _ _ G3).
+    rewrite tid_replace.
+    assert (E2 : N.eqb (tid x) tgt = false) by (apply N.eqb_neq; auto).
+    rewrite E2, (IH N2). reflexivity.
+Qed.
+
+(* ================================================================ 4. what find_trig finds *)
+Fixpoint f_trig (h : heap) (pv : option N) (l : list tree) : option (N * N) :=
+  match l with
+  | [] => None
+  | x :: r => match find_trig h pv x with
+              | Some q => Some q
+              | None => f_trig h (Some (tid x)) r
+              end
+  end.
+
+Lemma find_trig_eq : forall h pv i ts,
+  find_trig h pv (T i ts) =
+  match is_trig h pv i with Some q => Some q | None => f_trig h None ts end.
+Proof.
+  intros. simpl. destruct (is_trig h pv i); [reflexivity|].
+  generalize (@None N). induction ts as [|x r IH]; intros o; [reflexivity|].
+  simpl. destruct (find_trig h o x); [reflexivity | apply IH].
+Qed.
+
+Lemma is_trig_spec : forall h pv i p s, is_trig h pv i = Some (p, s) ->
+  pv = Some s /\ p = i /\ clsof h i = c_Paragraph /\ clsof h s = c_Section.
+Proof.
+  intros h pv i p s H. unfold is_trig in H. destruct pv as [s0|]; [|discriminate].
+  destruct (N.eqb (clsof h i) c_Paragraph) eqn:E1; [|discriminate].
+  destruct (N.eqb (clsof h s0) c_Section) eqn:E2; [|discriminate].
+  simpl in H. inversion H; subst. apply N.eqb_eq in E1, E2. auto.
+Qed.
+
+(* S and P are consecutive siblings somewhere in the tree *)
+Inductive sib (S P : tree) : tree -> Prop :=
+| sib_here : forall i pre post, sib S P (T i (pre ++ S :: P :: post))
+| sib_in : forall i pre x post, sib S P x -> sib S P (T i (pre ++ x :: post)).
+
+Definition trig_spec (h : heap) (p s : N) (pv : option N) (t : tree) : Prop :=
+  (pv = Some s /\ p = tid t) \/ (exists S P, tid S = s /\ tid P = p /\ sib S P t).
+
+Lemma f_trig_sib : forall h p s ts,
+  Forall (fun t => forall pv, find_trig h pv t = Some (p, s) -> trig_spec h p s pv t) ts ->
+  forall pv, f_trig h pv ts = Some (p, s) ->
+  (exists P post, pv = Some s /\ ts = P :: post /\ tid P = p) \/
+  (exists pre S P post, ts = pre ++ S :: P :: post /\ tid S = s /\ tid P = p) \/
+  (exists pre x post S P, ts = pre ++ x :: post /\ sib S P x /\ tid S = s /\ tid P = p).
+Proof.
+  intros h p s ts. induction ts as [|x r IHr]; intros IH pv H; [discriminate|].
+  inversion IH as [|? ? Hx Hr]; subst. simpl in H.
+  destruct (find_trig h pv x) as [q|] eqn:F.
+  - inversion H; subst q. destruct (Hx pv F) as [[A B]|(S & P & A & B & C)].
+    + left. exists x, r. auto.
+    + right. right. exists [], x, r, S, P. auto.
+  - destruct (IHr Hr _ H) as [(P & post & A & B & C)|[(pre & S & P & post & A & B & C)|
+                                (pre & y & post & S & P & A & B & C & D)]].
+    + right. left. inversion A; subst. exists [], x, P, post. auto.
+    + right. left. subst r. exists (x :: pre), S, P, post. auto.
+    + right. right. subst r. exists (x :: pre), y, post, S, P. auto.
+Qed.
+
+Lemma find_trig_sib : forall h p s t pv,
+  find_trig h pv t = Some (p, s) -> trig_spec h p s pv t.
+Proof.
+  intros h p s t. induction t as [i ts IH] using tree_ind'. intros pv H.
+  rewrite find_trig_eq in H. destruct (is_trig h pv i) as [q|] eqn:E.
+  - inversion H; subst q. apply is_trig_spec in E. left. simpl. tauto.
+  - right. destruct (f_trig_sib h p s ts IH None H)
+      as [(P & post & A & B & C)|[(pre & S & P & post & A & B & C)|
+                                  (pre & y & post & S & P & A & B & C & D)]].
+    + discriminate.
+    + subst ts. exists S, P. split; [auto|]. split; [auto|]. apply sib_here.
+    + subst ts. exists S, P. split; [auto|]. split; [auto|]. apply sib_in. exact B.
+Qed.
+
+Lemma find_trig_cls : forall h p s t pv,
+  find_trig h pv t = Some (p, s) -> clsof h p = c_Paragraph /\ clsof h s = c_Section.
+Proof.
+  intros h p s t. induction t as [i ts IH] using tree_ind'. intros pv H.
+  rewrite find_trig_eq in H. destruct (is_trig h pv i) as [q|] eqn:E.
+  - inversion H; subst q. apply is_trig_spec in E. destruct E as (_ & -> & A & B). auto.
+  - clear E. revert H. generalize (@None N).
+    induction ts as [|x r IHr]; intros o H; [discriminate|].
+    inversion IH as [|? ? Hx Hr]; subst. simpl in H.
+    destruct (find_trig h o x) as [q|] eqn:F.
+    + inversion H; subst q. eapply Hx; eassumption.
+    + eapply IHr; eassumption.
+Qed.
+
+Lemma sib_adjm : forall S P t, sib S P t -> forall ks L, tkids S = ks ++ [L] ->
+  exists t', adjm (tid P) (tid L) P t t'.
+Proof.
+  intros S P t H. induction H as [i pre post | i pre x post H IH]; intros ks L E.
+  - destruct S as [sid kk]. simpl in E. subst kk.
+    eexists. apply adjm_here; reflexivity.
+  - destruct (IH _ _ E) as [x' Hx]. eexists. apply adjm_in. exact Hx.
+Qed.
+
+Lemma sib_repr : forall S P t, sib S P t -> forall h q, repr h q t -> exists q', repr h q' S.
+Proof.
+  intros S P t H. induction H as [i pre post | i pre x post H IH]; intros h q Hr.
+  - apply repr_inv in Hr. destruct Hr as (nd & _ & _ & _ & _ & Hf).
+    rewrite Forall_forall in Hf. exists (Some i). apply Hf. apply in_elt.
+  - apply repr_inv in Hr. destruct Hr as (nd & _ & _ & _ & _ & Hf).
+    rewrite Forall_forall in Hf. apply (IH h (Some i)). apply Hf. apply in_elt.
+Qed.
+
+Lemma sib_in_ids : forall S P t, sib S P t -> In (tid S) (ids t).
+Proof.
+  intros S P t H. induction H as [i pre post | i pre x post H IH].
+  - rewrite ids_eq, idsl_app, idsl_cons. right. apply in_or_app. right.
+    apply in_or_app. left. apply tid_in_ids.
+  - rewrite ids_eq, idsl_app, idsl_cons. right. apply in_or_app. right.
+    apply in_or_app. left. exact IH.
+Qed.
+
+Lemma last_opt_spec {A} : forall (l : list A) x, last_opt l = Some x -> exists ks, l = ks ++ [x].
+Proof.
+  intros l x H. unfold last_opt in H. destruct (rev l) as [|y r] eqn:E; [discriminate|].
+  inversion H; subst y. exists (rev r). rewrite <- (rev_involutive l), E. reflexivity.
+Qed.
+
+Lemma last_opt_none {A} : forall (l : list A), last_opt l = None -> l = [].
+Proof.
+  intros l H. unfold last_opt in H. destruct (rev l) as [|y r] eqn:E; [|discriminate].
+  rewrite <- (rev_involutive l), E. reflexivity.
+Qed.
+
+Lemma map_tid_snoc : forall ts ks l, map tid ts = ks ++ [l] ->
+  exists ks' L, ts = ks' ++ [L] /\ tid L = l.
+Proof.
+  intros ts. induction ts as [|x ts' _] using rev_ind; intros ks l H.
+  - simpl in H. destruct ks; discriminate.
+  - rewrite map_app in H. simpl in H. apply app_inj_tail in H. destruct H as [_ H].
+    exists ts', x. auto.
+Qed.
+
+(* ---------------------------------------------------------------- sections with children
+   (for the no-raise refinement: get_last_child() of a Section with children is not None) *)
+Inductive sec_ok (h : heap) : tree -> Prop :=
+| sec_ok_T : forall i ts, (clsof h i = c_Section -> ts <> []) -> Forall (sec_ok h) ts ->
+    sec_ok h (T i ts).
+
+Lemma sec_ok_inv : forall h i ts, sec_ok h (T i ts) ->
+  (clsof h i = c_Section -> ts <> []) /\ Forall (sec_ok h) ts.
+Proof. intros h i ts H. inversion H; subst. auto. Qed.
+
+Lemma sec_ok_same_tc : forall h h' t, same_tc h h' -> sec_ok h t -> sec_ok h' t.
+Proof.
+  intros h h' t Hs. induction t as [i ts IH] using tree_ind'. intros H.
+  apply sec_ok_inv in H. destruct H as [H1 H2]. constructor.
+  - destruct (Hs i) as [_ E]. rewrite E. exact H1.
+  - rewrite Forall_forall in *. intros x Hx. apply IH; auto.
+Qed.
+
+Lemma sec_ok_of_heap : forall h t q, repr h q t ->
+  (forall i, In i (ids t) -> clsof h i = c_Section -> kids h i <> []) -> sec_ok h t.
+Proof.
+  intros h t. induction t as [i ts IH] using tree_ind'. intros q Hr H.
+  pose proof (kids_repr _ _ _ _ Hr) as Hk.
+  apply repr_inv in Hr. destruct Hr as (nd & _ & _ & _ & _ & Hf).
+  constructor.
+  - intros Hc E. subst ts. apply (H i); [left; reflexivity | exact Hc | exact Hk].
+  - rewrite Forall_forall in *. intros x Hx. apply (IH x Hx (Some i)); [apply Hf; exact Hx|].
+    intros j Hj. apply H. rewrite ids_eq. right. unfold idsl. apply in_flat_map.
+    exists x. auto.
+Qed.
+
+Lemma adjm_sec_ok : forall h n tgt P t t', adjm n tgt P t t' -> sec_ok h t -> sec_ok h t'.
+Proof.
+  intros h n tgt P t t' H. induction H as [i pre sid ks L post HP HL | i pre x x' post H IH];
+    intros Hok.
+  - apply sec_ok_inv in Hok. destruct Hok as [_ F].
+    apply Forall_app in F. destruct F as [F1 F2].
+    inversion F2 as [|? ? FS F3]; subst. inversion F3 as [|? ? FP F4]; subst.
+    apply sec_ok_inv in FS. destruct FS as [_ FS].
+    apply Forall_app in FS. destruct FS as [G1 G2]. inversion G2 as [|? ? GL _]; subst.
+    constructor.
+    + intros _ K. destruct pre; discriminate.
+    + apply Forall_app. split; [exact F1|]. constructor; [|exact F4].
+      constructor.
+      * intros _ K. destruct ks; discriminate.
+      * apply Forall_app. split; [exact G1|]. repeat constructor; assumption.
+  - apply sec_ok_inv in Hok. destruct Hok as [_ F].
+    apply Forall_app in F. destruct F as [F1 F2]. inversion F2 as [|? ? Fx F3]; subst.
+    constructor.
+    + intros _ K. destruct pre; discriminate.
+    + apply Forall_app. split; [exact F1|]. constructor; [apply IH; exact Fx | exact F3].
+Qed.
+
+Lemma sib_sec_ok : forall h S P t, sib S P t -> sec_ok h t -> sec_ok h S.
+Proof.
+  intros h S P t H. induction H as [i pre post | i pre x post H IH]; intros Hok.
+  - apply sec_ok_inv in Hok. destruct Hok as [_ F]. rewrite Forall_forall in F.
+    apply F. apply in_elt.
+  - apply sec_ok_inv in Hok. destruct Hok as [_ F]. rewrite Forall_forall in F.
+    apply IH. apply F. apply in_elt.
+Qed.
+
+(* with all Sections non-empty, get_last_child() of the found Section is a node *)
+Lemma trig_has_last : forall h t p s, repr h None t -> sec_ok h t ->
+  find_trig h None t = Some (p, s) -> last_opt (kids h s) <> None.
+Proof.
+  intros h t p s Hr Hok Hf K.
+  destruct (find_trig_cls _ _ _ _ _ Hf) as [_ Hc].
+  destruct (find_trig_sib _ _ _ _ _ Hf) as [[A _]|(S & P & HS & HP & Hsib)]; [discriminate|].
+  destruct (sib_repr _ _ _ Hsib _ _ Hr) as [q' HrS].
+  pose proof (sib_sec_ok _ _ _ _ Hsib Hok) as HokS.
+  destruct S as [sid kk]. simpl in HS. subst sid.
+  apply kids_repr in HrS. rewrite HrS in K. apply last_opt_none in K.
+  apply sec_ok_inv in HokS. destruct HokS as [H1 _].
+  apply (H1 Hc). destruct kk; [reflexivity | discriminate].
+Qed.
+
+(* ================================================================ 5. termination of fix_paragraphs *)
+Definition no_trigger (h : heap) (r : N) : Prop :=
+  exists t, build (S (length h)) h r = Some t /\ find_trig h None t = None.
+
+Section WithApi.
+  (* C05/ProofsApi.v, lemma move_to_repr, verbatim *)
+  Hypothesis move_to_repr : forall h t n tgt b s,
+    repr h None t -> NoDup (ids t) -> In n (ids t) -> n <> tid t ->
+    In tgt (ids t) -> tgt <> tid t -> t_find n t = Some s -> ~ In tgt (ids s) ->
+    exists h', move_to h n tgt b = Ok h' /\
+               repr h' None (t_insert tgt b s (t_replace n [] t)) /\
+               NoDup (ids (t_insert tgt b s (t_replace n [] t))).
+
+  (* one successful test of _fix_paragraphs: the move succeeds, the heap still represents a tree
+     with the same root and the same number of nodes, and the depth sum grows *)
+  Lemma fix_step_moves : forall h t p s l,
+    repr h None t -> NoDup (ids t) ->
+    find_trig h None t = Some (p, s) -> last_opt (kids h s) = Some l ->
+    exists h' t', move_to h p l false = Ok h' /\ repr h' None t' /\ NoDup (ids t') /\
+                  tid t' = tid t /\ tsize t' = tsize t /\ sdepth 0 t < sdepth 0 t' /\
+                  (sec_ok h t -> sec_ok h' t') /\ ids t' = ids t.
+  Proof.
+    intros h t p s l Hr Hnd Hf Hl.
+    destruct (find_trig_sib _ _ _ _ _ Hf) as [[A _]|(S & P & HS & HP & Hsib)]; [discriminate|].
+    destruct (sib_repr _ _ _ Hsib _ _ Hr) as [q' HrS].
+    destruct S as [sid kk]. simpl in HS. subst sid.
+    apply kids_repr in HrS. rewrite HrS in Hl.
+    destruct (last_opt_spec _ _ Hl) as [ks Hks].
+    destruct (map_tid_snoc _ _ _ Hks) as (ks' & L & Ekk & HL).
+    destruct (sib_adjm _ _ _ Hsib ks' L Ekk) as [t' Hadj].
+    rewrite HP, HL in Hadj.
+    destruct (adjm_facts _ _ _ _ _ Hadj Hnd) as (I1 & I2 & I3 & I4 & I5 & I6).
+    destruct (move_to_repr h t p l false P Hr Hnd I1 I3 I2 I4 I5 I6) as (h' & M1 & M2 & M3).
+    rewrite (adjm_ops _ _ _ _ _ Hadj Hnd) in M2, M3.
+    exists h', t'. split; [exact M1|]. split; [exact M2|]. split; [exact M3|].
+    split; [eapply adjm_tid; eassumption|]. split; [eapply adjm_tsize; eassumption|].
+    split; [rewrite (adjm_sdepth _ _ _ _ _ Hadj 0); pose proof (tsize_pos P); lia|].
+    split; [|eapply adjm_ids; eassumption].
+    intros Hok. apply (sec_ok_same_tc h h'); [eapply same_tc_move_to; eassumption|].
+    eapply adjm_sec_ok; eassumption.
+  Qed.
+
+  Lemma fix_paragraphs_gen : forall k h t,
+    repr h None t -> NoDup (ids t) -> fp_measure t < k ->
+    fix_paragraphs k h (tid t) <> OutOfFuel /\
+    (forall h', fix_paragraphs k h (tid t) = Done h' -> WF h' (tid t) /\ no_trigger h' (tid t)).
+  Proof.
+    induction k as [|k IH]; intros h t Hr Hnd Hm; [lia|].
+    simpl. unfold fix_step. rewrite (build_complete h t Hr Hnd).
+    destruct (find_trig h None t) as [[p s]|] eqn:F.
+    - destruct (last_opt (kids h s)) as [l|] eqn:L.
+      + destruct (fix_step_moves h t p s l Hr Hnd F L) as (h1 & t1 & M & R1 & N1 & E1 & E2 & E3 & _ & _).
+        rewrite M. rewrite <- E1. apply IH; auto.
+        unfold fp_measure in *. rewrite E2. pose proof (sdepth0_le t1) as B. rewrite E2 in B.
+        lia.
+      + split; [discriminate|]. intros h' K. discriminate.
+    - split; [discriminate|]. intros h' K. inversion K; subst h'. split.
+      + exists t. auto.
+      + exists t. split; [apply build_complete; assumption | exact F].
+  Qed.
+
+  (* refinement: if every Section of the tree has a child, nothing is raised *)
+  Lemma fix_paragraphs_gen_no_raise : forall k h t,
+    repr h None t -> NoDup (ids t) -> fp_measure t < k -> sec_ok h t ->
+    exists h', fix_paragraphs k h (tid t) = Done h'.
+  Proof.
+    induction k as [|k IH]; intros h t Hr Hnd Hm Hok; [lia|].
+    simpl. unfold fix_step. rewrite (build_complete h t Hr Hnd).
+    destruct (find_trig h None t) as [[p s]|] eqn:F.
+    - destruct (last_opt (kids h s)) as [l|] eqn:L.
+      + destruct (fix_step_moves h t p s l Hr Hnd F L)
+          as (h1 & t1 & M & R1 & N1 & E1 & E2 & E3 & E4 & _).
+        rewrite M. rewrite <- E1. apply IH; auto.
+        unfold fp_measure in *. rewrite E2. pose proof (sdepth0_le t1) as B. rewrite E2 in B.
+        lia.
+      + exfalso. eapply trig_has_last; eassumption.
+    - exists h. reflexivity.
+  Qed.
+
+  Theorem fix_paragraphs_no_raise_H : forall h r, WF h r ->
+    (forall t, tid t = r -> repr h None t ->
+       forall i, In i (ids t) -> clsof h i = c_Section -> kids h i <> []) ->
+    exists h', fix_paragraphs (fp_fuel h r) h r = Done h'.
+  Proof.
+    intros h r (t & Ht & Hr & Hnd) Hsec. subst r.
+    unfold fp_fuel. rewrite (build_complete h t Hr Hnd).
+    apply fix_paragraphs_gen_no_raise; auto; [unfold fp_measure; lia|].
+    eapply sec_ok_of_heap; [exact Hr|]. apply Hsec; auto.
+  Qed.
+
+  (* C07 for this loop: the visible words do not change *)
+  Lemma words_of_repr : forall h t, repr h None t -> NoDup (ids t) ->
+    words h (tid t) = words_t h t.
+  Proof. intros h t Hr Hnd. unfold words. rewrite (build_complete h t Hr Hnd). reflexivity. Qed.
+
+  Lemma fix_paragraphs_gen_words : forall k h t h',
+    repr h None t -> NoDup (ids t) ->
+    fix_paragraphs k h (tid t) = Done h' -> words h' (tid t) = words h (tid t).
+  Proof.
+    induction k as [|k IH]; intros h t h' Hr Hnd; [discriminate|].
+    simpl. unfold fix_step. rewrite (build_complete h t Hr Hnd).
+    destruct (find_trig h None t) as [[p s]|] eqn:F.
+    - destruct (last_opt (kids h s)) as [l|] eqn:L; [|discriminate].
+      destruct (fix_step_moves h t p s l Hr Hnd F L)
+        as (h1 & t1 & M & R1 & N1 & E1 & E2 & E3 & E4 & E5).
+      rewrite M. intros K. rewrite <- E1 in K. rewrite <- E1 at 1.
+      rewrite (IH h1 t1 h' R1 N1 K).
+      rewrite (words_of_repr h1 t1 R1 N1), (words_of_repr h t Hr Hnd).
+      rewrite (words_t_same_tc h h1 t1) by (eapply same_tc_move_to; eassumption).
+      apply words_t_ids_eq. exact E5.
+    - intros K. inversion K; subst h'. reflexivity.
+  Qed.
+
+  Theorem fix_paragraphs_terminates_H : forall h r, WF h r ->
+    fix_paragraphs (fp_fuel h r) h r <> OutOfFuel /\
+    (forall h', fix_paragraphs (fp_fuel h r) h r = Done h' -> WF h' r /\ no_trigger h' r).
+  Proof.
+    intros h r (t & Ht & Hr & Hnd). subst r.
+    unfold fp_fuel. rewrite (build_complete h t Hr Hnd).
+    apply fix_paragraphs_gen; auto. unfold fp_measure. lia.
+  Qed.
+End WithApi.
+
+(* ================================================================ 6. remove_breaking_returns:
+   the `while changed` loop terminates; the measure is the number of BreakingReturn nodes. *)
+Lemma repr_root_par : forall h q t, repr h q t -> par h (tid t) = q.
+Proof.
+  intros h q [i ts] H. apply repr_inv in H. destruct H as (nd & Hg & Hp & _).
+  unfold par. simpl. rewrite Hg. exact Hp.
+Qed.
+
+Lemma tree_parent : forall h t q c, repr h q t -> In c (ids t) -> c <> tid t ->
+  exists p, par h c = Some p /\ In p (ids t) /\ In c (kids h p).
+Proof.
+  intros h t. induction t as [i ts IH] using tree_ind'. intros q c Hr Hc Hne.
+  pose proof (kids_repr _ _ _ _ Hr) as Hk.
+  apply repr_inv in Hr. destruct Hr as (nd & Hg & Hp & Hch & _ & Hf).
+  rewrite ids_eq in Hc. destruct Hc as [->|Hc]; [simpl in Hne; congruence|].
+  unfold idsl in Hc. apply in_flat_map in Hc. destruct Hc as (x & Hx & Hcx).
+  rewrite Forall_forall in IH, Hf.
+  destruct (N.eq_dec c (tid x)) as [->|Hn].
+  - exists i. split; [apply repr_root_par; apply Hf; exact Hx|].
+    split; [left; reflexivity|]. rewrite Hk. apply in_map. exact Hx.
+  - destruct (IH x Hx (Some i) c (Hf x Hx) Hcx Hn) as (p & P1 & P2 & P3).
+    exists p. split; [exact P1|]. split; [|exact P3].
+    rewrite ids_eq. right. unfold idsl. apply in_flat_map. exists x. auto.
+Qed.
+
+Lemma kids_in_ids : forall h t q p c, repr h q t -> In p (ids t) -> In c (kids h p) ->
+  In c (ids t).
+Proof.
+  intros h t. induction t as [i ts IH] using tree_ind'. intros q p c Hr Hp Hc.
+  pose proof (kids_repr _ _ _ _ Hr) as Hk.
+  apply repr_inv in Hr. destruct Hr as (nd & Hg & _ & Hch & _ & Hf).
+  rewrite Forall_forall in IH, Hf.
+  rewrite ids_eq in *. right. unfold idsl in *. apply in_flat_map.
+  destruct Hp as [->|Hp].
+  - rewrite Hk in Hc. apply in_map_iff in Hc. destruct Hc as (x & <- & Hx).
+    exists x. split; [exact Hx | apply tid_in_ids].
+  - apply in_flat_map in Hp. destruct Hp as (x & Hx & Hpx).
+    exists x. split; [exact Hx|]. eapply IH; eauto.
+Qed.
+
+Lemma repr_frame : forall h h' t q, repr h q t ->
+  (forall i, In i (ids t) -> get h' i = get h i) -> repr h' q t.
+Proof.
+  intros h h' t. induction t as [i ts IH] using tree_ind'. intros q Hr Hfr.
+  apply repr_inv in Hr. destruct Hr as (nd & Hg & Hp & Hch & Htx & Hf).
+  apply repr_T with (nd := nd); auto.
+  - rewrite Hfr; [exact Hg | left; reflexivity].
+  - rewrite Forall_forall in *. intros x Hx. apply IH; auto.
+    intros j Hj. apply Hfr. rewrite ids_eq. right. unfold idsl. apply in_flat_map.
+    exists x. auto.
+Qed.
+
+Lemma get_set_parent_other : forall h i q j, j <> i -> get (set_parent h i q) j = get h j.
+Proof.
+  intros h i q j Hn. unfold set_parent. destruct (get h i); [|reflexivity].
+  unfold set. simpl. apply N.eqb_neq in Hn. rewrite Hn. reflexivity.
+Qed.
+
+Lemma get_set_kids_other : forall h i l j, j <> i -> get (set_kids h i l) j = get h j.
+Proof.
+  intros h i l j Hn. unfold set_kids. destruct (get h i); [|reflexivity].
+  unfold set. simpl. apply N.eqb_neq in Hn. rewrite Hn. reflexivity.
+Qed.
+
+Lemma index_of_in : forall c l k, index_of c l = Some k -> In c l.
+Proof.
+  intros c l. induction l as [|x l IH]; intros k H; [discriminate|].
+  simpl in H. destruct (N.eqb c x) eqn:E.
+  - apply N.eqb_eq in E. left. auto.
+  - destruct (index_of c l); [|discriminate]. right. eapply IH. reflexivity.
+Qed.
+
+Lemma remove_child_frame_get : forall h p c h1, remove_child h p c = Ok h1 ->
+  In c (kids h p) /\ forall i, i <> p -> i <> c -> get h1 i = get h i.
+Proof.
+  intros h p c h1 H. unfold remove_child, replace_child in H.
+  destruct (index_of c (kids h p)) as [k|] eqn:E; [|discriminate].
+  inversion H; subst h1. split; [eapply index_of_in; eassumption|].
+  intros i Hp Hc. simpl.
+  rewrite get_set_parent_other by assumption. apply get_set_kids_other. assumption.
+Qed.
+
+Lemma count_le : forall h k t1 t, incl (ids t1) (ids t) -> NoDup (ids t1) ->
+  count_cls h k t1 <= count_cls h k t.
+Proof.
+  intros h k t1 t Hi Hnd. unfold count_cls.
+  apply NoDup_incl_length; [apply NoDup_filter; exact Hnd|].
+  intros x Hx. apply filter_In in Hx. apply filter_In. destruct Hx. split; auto.
+Qed.
+
+Lemma count_lt : forall h k t1 t c, incl (ids t1) (ids t) -> NoDup (ids t1) ->
+  In c (ids t) -> ~ In c (ids t1) -> clsof h c = k ->
+  count_cls h k t1 < count_cls h k t.
+Proof.
+  intros h k t1 t c Hi Hnd Hc Hn Hk. unfold count_cls.
+  apply (NoDup_incl_length (l := c :: filter (fun i => N.eqb (clsof h i) k) (ids t1))).
+  - constructor; [|apply NoDup_filter; exact Hnd].
+    intro K. apply filter_In in K. tauto.
+  - intros x [<-|Hx].
+    + apply filter_In. split; [exact Hc|]. apply N.eqb_eq. exact Hk.
+    + apply filter_In in Hx. apply filter_In. destruct Hx. split; auto.
+Qed.
+
+Lemma count_cls_same_tc : forall h h' k t, same_tc h h' -> count_cls h' k t = count_cls h k t.
+Proof.
+  intros h h' k t H. unfold count_cls. f_equal. apply filter_ext.
+  intros a. destruct (H a) as [_ ->]. reflexivity.
+Qed.
+
+Lemma count_br_eq : forall h t, repr h None t -> NoDup (ids t) ->
+  count_br h (tid t) = count_cls h c_BR t.
+Proof. intros h t Hr Hnd. unfold count_br. rewrite (build_complete h t Hr Hnd). reflexivity. Qed.
+
+Section BRLoop.
+  Variable cand : heap -> N -> list N.
+  Variable r : N.
+
+  (* C05/ProofsApi.v, lemma remove_child_repr, verbatim (disj unfolded) *)
+  Hypothesis remove_child_repr : forall h t p c,
+    repr h None t -> NoDup (ids t) -> In p (ids t) -> In c (kids h p) ->
+    exists h', remove_child h p c = Ok h' /\
+               repr h' None (t_replace c [] t) /\ NoDup (ids (t_replace c [] t)) /\
+               (forall s, t_find c t = Some s ->
+                          repr h' None s /\
+                          (forall x, In x (ids (t_replace c [] t)) -> ~ In x (ids s))).
+
+  (* the candidates computed on a proper tree (first/last leaf below node, the node before/after
+     it) that are BreakingReturns are attached nodes of the tree below r, and not its root *)
+  Hypothesis cand_attached : forall h node c, WF h r -> In c (cand h node) ->
+    clsof h c = c_BR ->
+    (forall t, tid t = r -> repr h None t -> In c (ids t)) /\ c <> r.
+
+  (* one successful try_remove_node(c) with c.parent = p *)
+  Lemma remove_step : forall h t p c h1,
+    repr h None t -> NoDup (ids t) -> par h c = Some p -> remove_child h p c = Ok h1 ->
+    exists t1, repr h1 None t1 /\ NoDup (ids t1) /\ tid t1 = tid t /\
+               incl (ids t1) (ids t) /\ (In c (ids t) -> ~ In c (ids t1)).
+  Proof.
+    intros h t p c h1 Hr Hnd Hp Hrm.
+    destruct (in_dec N.eq_dec c (ids t)) as [Hc|Hc].
+    - assert (Hne : c <> tid t).
+      { intro K. subst c. rewrite (repr_root_par _ _ _ Hr) in Hp. discriminate. }
+      destruct (tree_parent _ _ _ _ Hr Hc Hne) as (p' & P1 & P2 & P3).
+      rewrite Hp in P1. inversion P1; subst p'.
+      destruct (remove_child_repr h t p c Hr Hnd P2 P3) as (h' & R1 & R2 & R3 & R4).
+      rewrite Hrm in R1. inversion R1; subst h'.
+      exists (t_replace c [] t). split; [exact R2|]. split; [exact R3|].
+      split; [apply tid_replace|]. split; [apply ids_replace_nil_incl|].
+      intros _. destruct (t_find c t) as [s|] eqn:F.
+      + destruct (R4 s eq_refl) as [_ D]. intro K. apply (D _ K).
+        destruct (t_find_some _ _ _ F) as [<- _]. apply tid_in_ids.
+      + exfalso. apply (t_find_none_inv _ _ F Hc).
+    - destruct (remove_child_frame_get _ _ _ _ Hrm) as [Hck Hfr].
+      assert (Hpn : ~ In p (ids t)).
+      { intro K. apply Hc. eapply kids_in_ids; eassumption. }
+      exists t. split.
+      + eapply repr_frame; [exact Hr|]. intros i Hi. apply Hfr; intro K; subst i; contradiction.
+      + split; [exact Hnd|]. split; [reflexivity|]. split; [apply incl_refl|].
+        intros K. contradiction.
+  Qed.
+
+  (* the for-loop over the candidates *)
+  Lemma br_cands_inv : forall cs h t changed,
+    repr h None t -> NoDup (ids t) ->
+    (changed = false -> forall c, In c cs -> clsof h c = c_BR -> In c (ids t) /\ c <> tid t) ->
+    match br_cands h changed cs with
+    | PRaised => True
+    | POk h' ch' =>
+        exists t', repr h' None t' /\ NoDup (ids t') /\ tid t' = tid t /\ same_tc h h' /\
+                   count_cls h c_BR t' <= count_cls h c_BR t /\
+                   (changed = false -> ch' = true -> count_cls h c_BR t' < count_cls h c_BR t)
+    end.
+  Proof.
+    induction cs as [|c cs IH]; intros h t changed Hr Hnd Hcs.
+    - simpl. exists t. split; [exact Hr|]. split; [exact Hnd|]. split; [reflexivity|].
+      split; [apply same_tc_refl|]. split; [lia|]. intros -> K. discriminate.
+    - simpl. destruct (N.eqb (clsof h c) c_BR) eqn:E.
+      + apply N.eqb_eq in E.
+        destruct (par h c) as [p|] eqn:Hp.
+        * destruct (remove_child h p c) as [h1|] eqn:Hrm; [|exact I].
+          destruct (remove_step h t p c h1 Hr Hnd Hp Hrm) as (t1 & R1 & R2 & R3 & R4 & R5).
+          pose proof (same_tc_remove_child _ _ _ _ Hrm) as S1.
+          specialize (IH h1 t1 true R1 R2).
+          destruct (br_cands h1 true cs) as [|h' ch']; [exact I|].
+          destruct IH as (t' & Q1 & Q2 & Q3 & Q4 & Q5 & _); [intros K; discriminate|].
+          rewrite !(count_cls_same_tc h h1) in Q5 by exact S1.
+          pose proof (count_le h c_BR t1 t R4 R2) as Le.
+          exists t'. split; [exact Q1|]. split; [exact Q2|]. split; [congruence|].
+          split; [eapply same_tc_trans; eassumption|]. split; [lia|].
+          intros Hch _. destruct (Hcs Hch c (or_introl eq_refl) E) as [Hc _].
+          pose proof (count_lt h c_BR t1 t c R4 R2 Hc (R5 Hc) E). lia.
+        * destruct changed.
+          -- specialize (IH h t true Hr Hnd).
+             destruct (br_cands h true cs) as [|h' ch']; [exact I|].
+             destruct IH as (t' & Q1 & Q2 & Q3 & Q4 & Q5 & _); [intros K; discriminate|].
+             exists t'. repeat (split; [assumption|]). intros K. discriminate.
+          -- exfalso. destruct (Hcs eq_refl c (or_introl eq_refl) E) as [Hc Hne].
+             destruct (tree_parent _ _ _ _ Hr Hc Hne) as (p' & P1 & _). congruence.
+      + specialize (IH h t changed Hr Hnd).
+        destruct (br_cands h changed cs) as [|h' ch']; [exact I|].
+        apply IH. intros Hch c' Hc'. apply Hcs; [exact Hch | right; exact Hc'].
+  Qed.
+
+  Lemma br_loop_gen : forall node k h, WF h r -> count_br h r < k ->
+    br_loop cand k h node <> OutOfFuel /\
+    (forall h', br_loop cand k h node = Done h' -> WF h' r).
+  Proof.
+    intros node. induction k as [|k IH]; intros h Hwf Hk; [lia|].
+    destruct Hwf as (t & Ht & Hr & Hnd).
+    simpl. unfold br_pass.
+    pose proof (br_cands_inv (cand h node) h t false Hr Hnd) as Inv.
+    destruct (br_cands h false (cand h node)) as [|h' ch'].
+    - split; [discriminate|]. intros ? K. discriminate.
+    - destruct Inv as (t' & Q1 & Q2 & Q3 & Q4 & Q5 & Q6).
+      { intros _ c Hc Hcls. rewrite Ht.
+        destruct (cand_attached h node c (ex_intro _ t (conj Ht (conj Hr Hnd))) Hc Hcls) as [A B].
+        split; [apply A; assumption | exact B]. }
+      assert (Hwf' : WF h' r) by (exists t'; split; [congruence|]; split; assumption).
+      destruct ch'.
+      + apply IH; [exact Hwf'|].
+        assert (E1 : count_br h' r = count_cls h c_BR t').
+        { rewrite <- Ht, <- Q3, (count_br_eq h' t' Q1 Q2). apply count_cls_same_tc. exact Q4. }
+        assert (E2 : count_br h r = count_cls h c_BR t).
+        { rewrite <- Ht. apply count_br_eq; assumption. }
+        specialize (Q6 eq_refl eq_refl). lia.
+      + split; [discriminate|]. intros h'' K. inversion K; subst h''. exact Hwf'.
+  Qed.
+
+  Theorem breaking_returns_terminates_H : forall h node, WF h r ->
+    br_loop cand (S (count_br h r)) h node <> OutOfFuel /\
+    (forall h', br_loop cand (S (count_br h r)) h node = Done h' -> WF h' r).
+  Proof. intros h node Hwf. apply br_loop_gen; [exact Hwf | lia]. Qed.
+End BRLoop.
+
+(* ================================================================ 7. closed statements
+   (the Section hypotheses instantiated with the lemmas of C05/ProofsApi.v) *)
+Theorem C06_fix_paragraphs_terminates : forall h r, WF h r ->
+  fix_paragraphs (fp_fuel h r) h r <> OutOfFuel /\
+  (forall h', fix_paragraphs (fp_fuel h r) h r = Done h' -> WF h' r /\ no_trigger h' r).
+Proof. exact (fix_paragraphs_terminates_H ProofsApi.move_to_repr). Qed.
+
+(* each step strictly decreases the explicit measure fp_measure (tree level) *)
+Theorem C06_fix_paragraphs_measure : forall h t p s l,
+  repr h None t -> NoDup (ids t) ->
+  find_trig h None t = Some (p, s) -> last_opt (kids h s) = Some l ->
+  exists h' t', move_to h p l false = Ok h' /\ repr h' None t' /\ NoDup (ids t') /\
+                tid t' = tid t /\ fp_measure t' < fp_measure t.
+Proof.
+  intros h t p s l Hr Hnd Hf Hl.
+  destruct (fix_step_moves ProofsApi.move_to_repr h t p s l Hr Hnd Hf Hl)
+    as (h' & t' & M & R & N' & E1 & E2 & E3 & _ & _).
+  exists h', t'. repeat (split; [assumption|]).
+  unfold fp_measure. rewrite E2. pose proof (sdepth0_le t') as B. rewrite E2 in B. lia.
+Qed.
+
+Theorem C06_breaking_returns_terminates : forall (cand : heap -> N -> list N) (r : N),
+  (forall h node c, WF h r -> In c (cand h node) -> clsof h c = c_BR ->
+     (forall t, tid t = r -> repr h None t -> In c (ids t)) /\ c <> r) ->
+  forall h node, WF h r ->
+  br_loop cand (S (count_br h r)) h node <> OutOfFuel /\
+  (forall h', br_loop cand (S (count_br h r)) h node = Done h' -> WF h' r).
+Proof.
+  intros cand r Hc. exact (breaking_returns_terminates_H cand r ProofsApi.remove_child_repr Hc).
+Qed.
+
+Theorem C06_fix_paragraphs_no_raise : forall h r, WF h r ->
+  (forall t, tid t = r -> repr h None t ->
+     forall i, In i (ids t) -> clsof h i = c_Section -> kids h i <> []) ->
+  exists h', fix_paragraphs (fp_fuel h r) h r = Done h'.
+Proof. exact (fix_paragraphs_no_raise_H ProofsApi.move_to_repr). Qed.
+
+(* C07 for fix_paragraphs: whatever the fuel, a finished run has not changed the visible words *)
+Theorem fix_paragraphs_keeps_words : forall k h r h', WF h r ->
+  fix_paragraphs k h r = Done h' -> words h' r = words h r.
+Proof.
+  intros k h r h' (t & Ht & Hr & Hnd) K. subst r.
+  eapply (fix_paragraphs_gen_words ProofsApi.move_to_repr); eassumption.
+Qed.
